@@ -157,7 +157,9 @@ func rewriteFile(name string, code []byte, rep *rewriteReport) ([]byte, bool, er
 	ast.Inspect(f, func(n ast.Node) bool {
 		switch x := n.(type) {
 		case *ast.SelectStmt:
-			rep.Unsupported = append(rep.Unsupported, fmt.Sprintf("%s:%d: select statement is not modelled", name, fset.Position(x.Pos()).Line))
+			if !pollingSelect(x) {
+				rep.Unsupported = append(rep.Unsupported, fmt.Sprintf("%s:%d: select statement without default, or with a send case, is not modelled", name, fset.Position(x.Pos()).Line))
+			}
 		case *ast.SendStmt:
 			rep.Unsupported = append(rep.Unsupported, fmt.Sprintf("%s:%d: channel send is not modelled", name, fset.Position(x.Pos()).Line))
 		case *ast.SelectorExpr:
@@ -223,6 +225,37 @@ func rewriteFile(name string, code []byte, rep *rewriteReport) ([]byte, bool, er
 		return nil, false, err
 	}
 	return buf.Bytes(), true, nil
+}
+
+// pollingSelect reports whether s is a non-blocking select (has a default clause) whose other cases
+// are all receives. Such a select executes atomically under the cooperative scheduler, so a
+// scheduling point in front of it is all the instrumentation it needs.
+func pollingSelect(s *ast.SelectStmt) bool {
+	hasDefault := false
+	for _, c := range s.Body.List {
+		cc, ok := c.(*ast.CommClause)
+		if !ok {
+			return false
+		}
+		switch x := cc.Comm.(type) {
+		case nil:
+			hasDefault = true
+		case *ast.ExprStmt:
+			if u, ok := x.X.(*ast.UnaryExpr); !ok || u.Op != token.ARROW {
+				return false
+			}
+		case *ast.AssignStmt:
+			if len(x.Rhs) != 1 {
+				return false
+			}
+			if u, ok := x.Rhs[0].(*ast.UnaryExpr); !ok || u.Op != token.ARROW {
+				return false
+			}
+		default:
+			return false
+		}
+	}
+	return hasDefault
 }
 
 func declPos(o *ast.Object) token.Pos {
@@ -464,6 +497,19 @@ func rewriteNode(body *ast.BlockStmt, shared map[*ast.Object]bool, rep *rewriteR
 			exprs(x.List)
 			for i := range x.Body {
 				x.Body[i] = stmt(x.Body[i])
+			}
+		case *ast.SelectStmt:
+			if pollingSelect(x) {
+				// the comm expressions stay real receives; only the clause bodies are rewritten
+				for _, c := range x.Body.List {
+					cc := c.(*ast.CommClause)
+					for i := range cc.Body {
+						cc.Body[i] = stmt(cc.Body[i])
+					}
+				}
+				count++
+				rep.Receives++
+				return &ast.BlockStmt{List: []ast.Stmt{&ast.ExprStmt{X: rtCall("SelectPoint")}, x}}
 			}
 		case *ast.LabeledStmt:
 			x.Stmt = stmt(x.Stmt)
